@@ -293,6 +293,9 @@ structure MLaws (I : MOps) where
     Repr (I.remove id m).1 (L.filter (fun r => r.id != id))
   remove_some : ∀ m L id r, Repr m L → UIds L → r ∈ L → wf r → r.id = id → (I.remove id m).2 = some r
   remove_none : ∀ m L id, Repr m L → (∀ r ∈ L, r.id ≠ id) → (I.remove id m).2 = none
+  /-- `self.count -= 1` never underflows: it is executed only when `remove` found the route, and then
+  the count is positive -/
+  remove_pos : ∀ m L id, Repr m L → (I.remove id m).2.isSome = true → 0 < I.len m
   repr_batch : ∀ m L ids, Repr m L →
     Repr (I.batchRemove ids m) (L.filter (fun r => !ids.contains r.id))
   mem_match : ∀ m L q r, Repr m L → UIds L → (r ∈ I.matchReq m q ↔ r ∈ L ∧ sat L r q = true)
